@@ -221,6 +221,15 @@ def nestings(s, kind, rng):
     yield "list", ([v(), v(), v()],)
     yield "list+lits", ([v(), lit(), v(), lit()],)
     yield "only-lits", ([lit(), lit(), lit()],)
+    if kind == "B":
+        yield "lit-true", (True,)
+        yield "lit-false", (False,)
+        yield "lits-true-false-true", ([True, False, True],)
+        yield "lits-nested", ([[True], [False, [True, True]]],)
+        yield "lits-varargs", (True, False, True, True)
+    else:
+        yield "lits-int", ([1, 2, 3],)
+        yield "lits-int-dup", ([1, [2, 1]],)
     yield "array1d", (A1(3),)
     yield "array1d-empty", (A1(0),)
     yield "array2d", (A2(2, 2),)
